@@ -23,7 +23,7 @@ from ..absint import Vec, Tup, K, Opq, Lin, Alt, as_lin_val
 from ..index import AnalysisError
 from ..lin import Facts
 from ._c02_fh import FHInterp, Obj, TV, Mask, Sel, Cnt, AllV, exc_name, FH_PATH
-from ._c02_fh import run as irun, AlwaysRaises
+from ._c02_fh import run as irun, AlwaysRaises, no_result, rejects_for_sure
 
 VAL_PATH = "sktime/utils/validation/forecasting.py"
 C = Lin.sym("cutoff")
@@ -77,7 +77,8 @@ def judge(ctx, rule, construct, rets, want, wf, loc, what):
     uninterpretable -> UNDECIDED, no returning trace -> VIOLATION (valid input rejected)."""
     vals = distinct([v for _, v in rets])
     if not vals:
-        ctx.violation(rule, construct, "%s: every path raises for a valid integer horizon / cutoff" % what, loc)
+        no_result(ctx, rule, construct, getattr(rets, "raises", ()),
+                  "%s: every path raises for a valid integer horizon / cutoff" % what, loc)
         return None
     bad = [v for v in vals if not wf(v)]
     if bad:
@@ -284,7 +285,7 @@ def rule_r4(ctx, repo):
         rets, raises, _ = irun(it, mod, fn, {"values": inp})
         cons = "_check_values[%s]" % kind.split(".")[-1]
         if not rets:
-            ctx.violation("R4", cons + ":accepted", "a %s horizon is rejected on every path" % kind, loc)
+            no_result(ctx, "R4", cons + ":accepted", raises, "a %s horizon is rejected on every path" % kind, loc)
             continue
         ctx.ok("R4", cons + ":accepted", "%d accepting path(s)" % len(rets), loc)
         for i, (s, v) in enumerate(rets):
@@ -321,7 +322,7 @@ def rule_r4(ctx, repo):
         want = TV("pandas.Int64Index", "single", [inp])
         vals = distinct([v for _, v in rets])
         if not vals:
-            ctx.violation("R4", cons + ":wrapped", "a single integer step is rejected", loc)
+            no_result(ctx, "R4", cons + ":wrapped", raises, "a single integer step is rejected", loc)
         elif all(isinstance(v, TV) for v in vals):
             ctx.check(all(v == want or v == TV(want.kind, "sorted", [want]) for v in vals), "R4", cons + ":wrapped",
                       "single integer wrapped as one-element index",
@@ -360,7 +361,7 @@ def rule_r4(ctx, repo):
             cons = "ForecastingHorizon.__init__[%s,is_relative=%s]" % (kind.split(".")[-1], rel)
             if kind in allowed[rel]:
                 if not rets:
-                    ctx.violation("R4", cons, "a supported combination is rejected on every path", iloc)
+                    no_result(ctx, "R4", cons, raises, "a supported combination is rejected on every path", iloc)
                     continue
                 vals = [e["val"] for e in it.stores if e["obj"] is me and e["attr"] == "_values"]
                 flags = [e["val"] for e in it.stores if e["obj"] is me and e["attr"] == "_is_relative"]
@@ -414,8 +415,10 @@ def rule_r5(ctx, repo):
             return
         path = it.path_of(s)
         about_len = [pv for pv, _, _ in path if mentions_len(pv, n)]
-        affine = [pv for pv in about_len if isinstance(pv, Opq) and pv.tag.startswith("cmp:") and len(pv.args) == 2
-                  and all(as_lin_val(a) is not None for a in pv.args)]
+        # conditions the integer facts capture completely: affine comparisons and the truthiness of an integer
+        affine = [pv for pv in about_len if as_lin_val(pv) is not None or (
+            isinstance(pv, Opq) and pv.tag.startswith("cmp:") and len(pv.args) == 2
+            and all(as_lin_val(a) is not None for a in pv.args))]
         if about_len and len(affine) == len(about_len):
             ctx.violation("R5", cons, "an empty horizon is accepted: the tests on its length (%r) do not exclude %r == 0"
                           % (affine, n), loc)
@@ -446,7 +449,7 @@ def rule_r5(ctx, repo):
                 continue
             vals = distinct([v for _, v in rets])
             if not vals:
-                ctx.violation("R5", cons, "a valid horizon is rejected on every path", loc)
+                no_result(ctx, "R5", cons, raises, "a valid horizon is rejected on every path", loc)
                 continue
             if not all(it.is_fh(v) for v in vals):
                 ctx.undecided("R5", cons, "result not interpretable: %r" % (vals,), loc)
@@ -474,7 +477,7 @@ def rule_r5(ctx, repo):
                 ctx.undecided("R5", cons, "reference constructor call not interpretable: %r" % (want,), loc)
                 continue
             if not vals:
-                ctx.violation("R5", cons, "valid %s input is rejected on every path" % kind, loc)
+                no_result(ctx, "R5", cons, raises, "valid %s input is rejected on every path" % kind, loc)
                 continue
             if any(isinstance(v, TV) for v in vals):
                 ctx.violation("R5", cons, "returns %r, not a ForecastingHorizon built from the input"
